@@ -4,10 +4,13 @@ package main
 
 import (
 	"context"
+	"crypto/tls"
 	"encoding/json"
 	"fmt"
+	"net"
 	"strings"
 	"sync"
+	"time"
 
 	mail "github.com/wneessen/go-mail"
 
@@ -220,6 +223,96 @@ func runC19Case(r *ev.Run, c c19Case) int {
 	return steps
 }
 
+// c19OwnCase: implicit TLS through the library's own dialer (no WithDialContextFunc) over loopback TCP against a peer
+// with which the handshake cannot succeed. The peer never closes: whether the client closed is what the peer observes
+// (end of stream on its side).
+type c19OwnCase struct {
+	Via      string `json:"via"`      // dial | dialandsend
+	Peer     string `json:"peer"`     // plain-greeting | wrongname-cert | untrusted-cert | garbage
+	Fallback bool   `json:"fallback"` // WithSSLPort(true)-like: a fallback port is configured as well
+	Own      bool   `json:"own_dialer"`
+}
+
+func runC19Own(r *ev.Run, c c19OwnCase, wait time.Duration) (closedSeen bool, ran bool) {
+	tm := gen.TLS()
+	ln, err := net.Listen("tcp", "127.0.0.1:0")
+	if err != nil {
+		r.HarnessError("listen: " + err.Error())
+		return false, false
+	}
+	defer ln.Close()
+	eof := make(chan struct{})
+	accepted := make(chan struct{})
+	go func() {
+		conn, err := ln.Accept()
+		if err != nil {
+			return
+		}
+		close(accepted)
+		defer conn.Close()
+		switch c.Peer {
+		case "plain-greeting":
+			_, _ = conn.Write([]byte("220 plain.verif.example ESMTP, no TLS here\r\n"))
+		case "garbage":
+			_, _ = conn.Write([]byte("\x00\x01\x02 not a TLS record at all \xff\xfe\r\n"))
+		case "wrongname-cert", "untrusted-cert":
+			cert := tm.WrongName
+			if c.Peer == "untrusted-cert" {
+				cert = tm.Untrusted
+			}
+			ts := tls.Server(&noCloseConn{conn}, gen.ServerTLS(cert, 0, 0))
+			_ = conn.SetDeadline(time.Now().Add(5 * time.Second))
+			_ = ts.Handshake() // fails: the client refuses the certificate
+			_ = conn.SetDeadline(time.Time{})
+		}
+		// the peer holds the connection and only watches for the end of the stream
+		buf := make([]byte, 4096)
+		_ = conn.SetReadDeadline(time.Now().Add(wait + 10*time.Second))
+		for {
+			if _, err := conn.Read(buf); err != nil {
+				if ne, ok := err.(net.Error); !ok || !ne.Timeout() {
+					close(eof)
+				}
+				return
+			}
+		}
+	}()
+	port := ln.Addr().(*net.TCPAddr).Port
+	cl, err := mail.NewClient("localhost", mail.WithPort(port), mail.WithSSL(), mail.WithTLSConfig(gen.ClientTLS("localhost", 0, 0)), mail.WithTimeout(2*time.Second), mail.WithHELO("client.verif.example"))
+	if err != nil {
+		r.HarnessError("C19 own NewClient: " + err.Error())
+		return false, false
+	}
+	msg, _ := simpleMsg("c19o", "m0@sender.example", []string{"r0@rcpt.example"}, "quoted-printable", "body\r\n")
+	ctx, cancel := context.WithTimeout(context.Background(), 8*time.Second)
+	defer cancel()
+	var callErr error
+	if c.Via == "dialandsend" {
+		callErr = cl.DialAndSendWithContext(ctx, msg)
+	} else {
+		callErr = cl.DialWithContext(ctx)
+	}
+	select {
+	case <-accepted:
+	case <-time.After(2 * time.Second):
+		return false, false
+	}
+	if callErr == nil {
+		r.Violate(ev.Violation{Key: "own-dialer:no-error:" + c.Peer, What: "implicit TLS against a peer of kind " + c.Peer + ": the call returned nil", Case: c})
+		return true, true
+	}
+	select {
+	case <-eof:
+		return true, true
+	case <-time.After(wait):
+		return false, true
+	}
+}
+
+type noCloseConn struct{ net.Conn }
+
+func (n *noCloseConn) Close() error { return nil }
+
 func classifyDialErr(err error) string {
 	s := err.Error()
 	switch {
@@ -282,7 +375,7 @@ func c19Configs(thorough bool) []c19Config {
 
 func runC19(r *ev.Run, rep *ev.ReplayDoc) ev.Summary {
 	sum := ev.Summary{
-		Rule: "execution-tree enumeration over the dial and dial-and-send dialogues: for DialWithContext, DialToSMTPClientWithContext and DialAndSend x TLS policies (none/opportunistic/mandatory, STARTTLS advertised or not, good / wrong-name / untrusted certificate) x auth configurations (PLAIN, LOGIN, wrong password, AUTH missing, mechanism unsupported, refused on unencrypted connection, autodiscover without usable mechanism), the server deviates ({4yz, 5yz, drop, a line that is no SMTP reply}) or the caller's context is cancelled (server answering normally) at up to 1 (quick) / 2 (thorough) positions from the greeting to QUIT. The tracking net.Conn injected through WithDialContextFunc is inspected at the instant the public call returns. non-trivial = the call failed or a deviation was scripted",
+		Rule: "execution-tree enumeration over the dial and dial-and-send dialogues: for DialWithContext, DialToSMTPClientWithContext and DialAndSend x TLS policies (none/opportunistic/mandatory, STARTTLS advertised or not, good / wrong-name / untrusted certificate) x auth configurations (PLAIN, LOGIN, wrong password, AUTH missing, mechanism unsupported, refused on unencrypted connection, autodiscover without usable mechanism), the server deviates ({4yz, 5yz, drop, a line that is no SMTP reply}) or the caller's context is cancelled (server answering normally) at up to 1 (quick) / 2 (thorough) positions from the greeting to QUIT. The tracking net.Conn injected through WithDialContextFunc is inspected at the instant the public call returns. Plus implicit TLS through the library's own dialer over loopback TCP against peers the handshake cannot succeed with (clear-text greeting, wrong-name / untrusted certificate, garbage): the peer never closes and watches for the end of the stream. non-trivial = the call failed or a deviation was scripted",
 		Assumptions: []string{
 			"closing is synchronous: the conn must be closed when the call returns, no grace period",
 			"only errors returned after the dial function handed out a connection are judged",
@@ -291,6 +384,13 @@ func runC19(r *ev.Run, rep *ev.ReplayDoc) ev.Summary {
 		Exhaustive: true,
 	}
 	if rep != nil {
+		var o c19OwnCase
+		if err := json.Unmarshal(rep.Case, &o); err == nil && o.Own {
+			if closed, ran := runC19Own(r, o, 15*time.Second); ran && !closed {
+				r.Violate(ev.Violation{Key: "conn-open-after-error:own-dialer:" + o.Via + ":" + o.Peer, What: "replay: the peer did not see the connection closed within 15 s", Case: o})
+			}
+			return sum
+		}
 		var c c19Case
 		if err := json.Unmarshal(rep.Case, &c); err != nil {
 			r.HarnessError("bad replay case: " + err.Error())
@@ -306,6 +406,39 @@ func runC19(r *ev.Run, rep *ev.ReplayDoc) ev.Summary {
 	n := enumTree(r, cfgs, func(c c19Config) int { return c.MaxDev }, kinds, func(cfg c19Config, script []scriptEntry) int {
 		return runC19Case(r, c19Case{Cfg: cfg, Script: script})
 	})
+	// implicit TLS through the library's own tls.Dialer path: the peer watches whether its side sees the end of the stream
+	var own []c19OwnCase
+	for _, via := range []string{"dial", "dialandsend"} {
+		for _, peer := range []string{"plain-greeting", "wrongname-cert", "untrusted-cert", "garbage"} {
+			own = append(own, c19OwnCase{Via: via, Peer: peer, Own: true})
+		}
+	}
+	var omu sync.Mutex
+	var suspects []c19OwnCase
+	r.ParallelN(8, len(own), func(i int) {
+		closed, ran := runC19Own(r, own[i], 3*time.Second)
+		if !ran {
+			r.Inconclusive("C19 own-dialer case did not run: " + own[i].Peer)
+			return
+		}
+		r.Count("own_dialer_failed_handshakes", 1)
+		r.Eval(fmt.Sprintf("own|%+v", own[i]), true)
+		if closed {
+			r.Count("own_dialer_connection_seen_closed_by_peer", 1)
+			return
+		}
+		omu.Lock()
+		suspects = append(suspects, own[i])
+		omu.Unlock()
+	})
+	for _, c := range suspects {
+		// confirm alone, with a long observation window: a closed TCP connection reaches the peer within milliseconds
+		if closed, ran := runC19Own(r, c, 15*time.Second); ran && !closed {
+			r.Violate(ev.Violation{Key: "conn-open-after-error:own-dialer:" + c.Via + ":" + c.Peer, What: fmt.Sprintf("implicit TLS with the library's own dialer against a %s peer: %s returned an error, but the peer did not see the connection closed within 15 s (it is still open)", c.Peer, c.Via), Case: c})
+		} else {
+			r.Inconclusive("C19 own-dialer: closure seen late once, in time when re-run alone: " + c.Peer)
+		}
+	}
 	r.Sample(map[string]any{"configurations": len(cfgs), "executions": n, "example": c19Case{Cfg: cfgs[1], Script: []scriptEntry{{Index: 2, Kind: "5yz"}}}})
 	r.CollectRaceLogs()
 	return sum
